@@ -600,6 +600,9 @@ fn chain_big() -> Vec<&'static str> {
         "1.0.0-0",
         "1.0.0-9007199254740992",
         "1.0.0-9007199254740993",
+        // all-digit identifiers beyond u64 are alphanumeric: ASCII order, leading zeros count
+        "1.0.0-0100000000000000000000",
+        "1.0.0-100000000000000000000",
         "1.0.0-a",
         "1.0.0-a.0",
         "1.0.0-a.0.0",
